@@ -9,6 +9,15 @@ pub mod basic;
 #[path = "../../corpus/names.rs"]
 pub mod names;
 
+/// Contracts with `#[sv::override_entry_point(kind = ..)]` (10 configurations, shared with C06): an
+/// override registered under ANOTHER kind would make the entry point of that other kind take the wrong
+/// message.  The gate names every generated entry point with the message type of its own kind.
+#[path = "../../corpus/ovr.rs"]
+pub mod ovr;
+pub mod ovr_gate {
+    include!("../../c06/src/ovr_exist.rs");
+}
+
 /// Compile gate (also native): the generated entry points of corpus `basic` take the CONTRACT-LEVEL
 /// message of their kind.
 #[cfg(corpus_entry_points)]
